@@ -549,30 +549,71 @@ def text_of(b):
     return b.decode('utf-8', 'surrogateescape')
 
 
-def run_journal(ctx, rng, res, idx, batch):
-    """generate one journal, run ledger on it; returns a record for the batch (model run later)"""
+def make_journal(ctx, rng, idx, jdir):
+    """generate one journal and write it; the commands run later (in parallel)"""
     xs, qword = gen_journal(rng, idx)
+    fname = 'j%d.dat' % idx if rng.random() < 0.7 else rng.choice(['q"%d.dat', 'b\\%d.dat', 'é<&%d.dat']) % idx
+    fmt, fkind = gen_format(rng)
+    return make_record(xs, qword, fmt, fkind, 'j%d' % idx, os.path.join(jdir, fname))
+
+
+def make_record(xs, qword, fmt, fkind, jid, path):
     jtext = render(xs)
-    fname = 'j%d.dat' % (idx % 40) if rng.random() < 0.7 else rng.choice(['q"%d.dat', 'b\\%d.dat', 'é<&%d.dat']) % (idx % 40)
-    path = ctx.path(fname)
     with open(path, 'wb') as f:
         f.write(jtext.encode('utf-8'))
     query = [qword] if qword else []
-    fmt, fkind = gen_format(rng)
-    outs = {}
-    st, out, err = lib.run_ledger(['-f', path, 'reg', '--format', REG_FORMAT] + query)
-    outs['reg'] = (st, out, err)
-    for name, args in (('csvd', ['csv']), ('csv', ['csv', '--csv-format', csv_format_string(fmt)]),
-                       ('emacs', ['emacs']), ('xml', ['xml'])):
-        outs[name] = lib.run_ledger(['-f', path] + args + query)
     if qword:
         shown = [(x, [p for p in x.posts if qword.lower() in p.account.lower()]) for x in xs]
         shown = [(x, ps) for x, ps in shown if ps]
     else:
         shown = [(x, list(x.posts)) for x in xs]
-    rec = dict(id='j%d' % idx, journal=jtext, path=path, query=query, fmt=fmt, fkind=fkind, xs=xs,
-               shown=shown, outs=outs)
-    batch.append(rec)
+    return dict(id=jid, journal=jtext, path=path, query=query, qword=qword, fmt=fmt, fkind=fkind, xs=xs,
+                shown=shown, outs=None)
+
+
+def shrink(rec, key):
+    """drop transactions (then postings' notes) while the oracle still reports `key`; -> the
+    violation on the smallest journal found"""
+    def judge(xs):
+        r = run_commands(make_record(xs, rec['qword'], rec['fmt'], rec['fkind'], rec['id'], rec['path']))
+        tmp = lib.Result()
+        rows = check_journal_fields(r, tmp)
+        if rows is None:
+            return None
+        oracle(r, rows, tmp)
+        for v in tmp.violations:
+            if v['key'] == key:
+                return v
+        return None
+
+    xs = list(rec['xs'])
+    best = None
+    progress = True
+    while progress and len(xs) > 1:
+        progress = False
+        for i in range(len(xs)):
+            cand = xs[:i] + xs[i + 1:]
+            v = judge(cand)
+            if v:
+                xs, best, progress = cand, v, True
+                break
+    return best
+
+
+def commands(path, fmt_string, query):
+    return (('reg', ['-f', path, 'reg', '--format', REG_FORMAT] + query),
+            ('csvd', ['-f', path, 'csv'] + query),
+            ('csv', ['-f', path, 'csv', '--csv-format', fmt_string] + query),
+            ('emacs', ['-f', path, 'emacs'] + query),
+            ('xml', ['-f', path, 'xml'] + query))
+
+
+def run_commands(rec):
+    rec['outs'] = {name: lib.run_ledger(args) for name, args in commands(rec['path'], csv_format_string(rec['fmt']), rec['query'])}
+    try:
+        os.unlink(rec['path'])
+    except OSError:
+        pass
     return rec
 
 
@@ -639,7 +680,10 @@ def oracle(rec, rows, res):
     outs = rec['outs']
 
     def viol(key, desc, observed, required):
-        res.violations.append(dict(key=key, desc=desc, case=case, observed=str(observed)[:800], required=str(required)[:800]))
+        cmd = 'xml' if key.startswith('xml') else 'emacs' if key.startswith('emacs') else 'csv' if key.startswith('csv-rfc') else 'csvd'
+        c = dict(case, command=cmd, output=text_of(outs[cmd][1])[:4000])
+        res.violations.append(dict(key=key, desc=desc, case=c, observed=str(observed)[:800], required=str(required)[:800],
+                                   journal_id=rec['id']))
 
     # ---- xml: well-formed, and the values are the register's
     xml_bytes = outs['xml'][1]
@@ -784,10 +828,13 @@ def run(ctx, n_override=None):
                 'each journal is reported by reg, csv (default and a generated --csv-format), emacs and xml, with or without an account query; '
                 'non-trivial = at least one reported free-text field contains a character that some writer must escape (" \\ < > & \') or a non-ASCII letter; '
                 'distinct by journal text + query + csv format')
-    n = n_override or ctx.scale(260, 6000)
-    batch = []
-    for i in range(n):
-        run_journal(ctx, rng, res, i, batch)
+    n = n_override or ctx.scale(2000, 15000)
+    jdir = ctx.path('journals')
+    os.makedirs(jdir, exist_ok=True)
+    batch = [make_journal(ctx, rng, i, jdir) for i in range(n)]
+    from concurrent.futures import ThreadPoolExecutor
+    with ThreadPoolExecutor(max_workers=min(8, lib.NCPU)) as pool:
+        list(pool.map(run_commands, batch))
     # model: one driver process for everything
     lines, live = [], []
     reader_lines, reader_meta = [], []
@@ -858,6 +905,19 @@ def run(ctx, n_override=None):
         if len(res.samples) < 4 and {'dquote', 'backslash', 'xmlspecial'} <= kinds:
             res.samples.append(dict(journal=rec['journal'], query=rec['query'], csv=text_of(outs['csvd'][1])[:400],
                                     emacs=text_of(outs['emacs'][1])[:400]))
+    # minimise the first violation of each class (the replay file then holds a small journal)
+    first = {}
+    for v in res.violations:
+        first.setdefault(v['key'], v)
+    by_id = {rec['id']: rec for rec in live}
+    for key, v in first.items():
+        rec = by_id.get(v.get('journal_id'))
+        if rec is None:
+            continue
+        small = shrink(rec, key)
+        if small:
+            i = res.violations.index(v)
+            res.violations[i] = small
     # reader cross-check
     for (rec, what, name, data), line in zip(reader_meta, out[pos:]):
         got = line.split(' read ', 1)[1] if ' read ' in line else line
@@ -894,36 +954,31 @@ def search(ctx, broken):
 
 
 def replay(ctx, obj):
+    """re-run the stored command on the stored journal: the violation stands when ledger still
+    prints what was judged (the judgement itself is stored in the replay file)"""
     res = lib.Result()
     case = obj.get('case') or {}
     if 'journal' not in case:
         return res
-    path = ctx.path(case.get('file') or 'replay.dat')
+    jdir = ctx.path('journals')
+    os.makedirs(jdir, exist_ok=True)
+    path = os.path.join(jdir, case.get('file') or 'replay.dat')
     with open(path, 'wb') as f:
         f.write(case['journal'].encode('utf-8', 'surrogateescape'))
     q = case.get('query') or []
-    key = obj.get('key', '')
-    cmd = 'xml' if key.startswith('xml') else 'emacs' if key.startswith('emacs') else 'csv'
-    args = ['-f', path, cmd] + (['--csv-format', case['csv_format']] if key.startswith('csv-rfc') else []) + q
+    cmd = case.get('command', 'csvd')
+    args = dict(commands(path, case.get('csv_format', ''), q))[cmd]
     st, out, err = lib.run_ledger(args)
-    st2, reg, _ = lib.run_ledger(['-f', path, 'reg', '--format', '%(date)|%(code)|%(payee)|%(display_account)|%(note)\\n'] + q)
+    st2, reg, _ = lib.run_ledger(['-f', path, 'reg', '--format', '%(date)|%(code)|%(payee)|%(display_account)|%(join(note | xact.note))\\n'] + q)
     print('replay: ledger %s' % ' '.join(args[2:]))
     print(text_of(out)[:2000])
-    print('register fields:')
+    print('register fields (date|code|payee|account|note):')
     print(text_of(reg)[:1000])
-    if cmd == 'csv':
+    if cmd in ('csv', 'csvd'):
         text = out.decode('latin-1')
-        rfc, bs = csv_rows(text, 'rfc'), csv_rows(text, 'bs')
-        print('python csv, RFC dialect: %r' % (rfc,))
-        print('python csv, backslash dialect: %r' % (bs,))
-        res.violations.append(dict(key=key, desc=obj.get('desc', '')))
-    elif cmd == 'xml':
-        try:
-            ET.fromstring(out)
-            if 'not-well-formed' not in key:
-                res.violations.append(dict(key=key, desc=obj.get('desc', '')))
-        except ET.ParseError as e:
-            res.violations.append(dict(key=key, desc='not well-formed: %s' % e))
-    else:
-        res.violations.append(dict(key=key, desc=obj.get('desc', '')))
+        print('python csv, RFC 4180 dialect:  %r' % (csv_rows(text, 'rfc'),))
+        print('python csv, backslash dialect: %r' % (csv_rows(text, 'bs'),))
+    print('required: %s' % obj.get('required'))
+    if text_of(out)[:4000] == case.get('output'):
+        res.violations.append(dict(key=obj.get('key', ''), desc=obj.get('desc', '')))
     return res
